@@ -330,7 +330,7 @@ def gen_blocks(seed, big):
         if alive and not e['ready']:
             exp.append(src[-1].strip())
         return can_unwrap
-    for _ in range(250 if big else 80):
+    for _ in range(800 if big else 250):
         ds, de = rnd.choice([('<', '>'), ('<!-- <', '> -->'), ('/* <', '> */')])
         src, exp = [], []
         ok = True
@@ -390,7 +390,7 @@ def gen_inline(seed, big):
     out = []
     words = ['abc', 'x = 1;', 'これは期間限定', 'é', '😀 ok', '}', 'if (a) {', '']
     blanks = ['', ' ', '  ', '\t', '\n', '\n  ', ' \n', '\n\n']
-    for _ in range(300 if big else 100):
+    for _ in range(1500 if big else 500):
         ds, de = rnd.choice([('<', '>'), ('<!-- <', '> -->'), ('/* <', '> */')])
         parts, keep = [], []
         for _ in range(rnd.randint(1, 3)):
@@ -425,20 +425,22 @@ def gen_dedent(seed, big):
     """C12: unwrap-block (not on the first line) dedents every inner line by (first inner indent - tag indent), exactly"""
     rnd = random.Random(seed + 6)
     out = []
-    for _ in range(200 if big else 60):
+    for _ in range(800 if big else 250):
         unit = rnd.choice(['  ', '    ', '\t'])
         t = rnd.randint(0, 2)
-        f = t + rnd.randint(0, 2)
+        f = max(0, t + rnd.randint(-2, 2))
         n = rnd.randint(1, 4)
-        extras = [0] + [rnd.randint(0, 2) for _ in range(n - 1)]
+        levels = [f] + [max(0, f + rnd.randint(-2, 2)) for _ in range(n - 1)]
+        shift = max(0, f - t)
+        extras = None
         texts = [rnd.choice(['x();', 'これ', 'y = 2; // é']) + str(i) for i in range(n)]
         final_nl = rnd.random() < 0.7
         tail = rnd.random() < 0.7
         src = 'q\n' + unit * t + f"<{RM} name='f1' unwrap-block>\n" + unit * t + 'if a {\n'
         exp = 'q\n'
-        for e, tx in zip(extras, texts):
-            src += unit * (f + e) + tx + '\n'
-            exp += unit * (t + e) + tx + '\n'
+        for lv, tx in zip(levels, texts):
+            src += unit * lv + tx + '\n'
+            exp += unit * (lv if lv <= t else max(t, lv - shift)) + tx + '\n'
         src += unit * t + '}\n' + unit * t + f"</{RM}>"
         if tail:
             src += '\nz' + ('\n' if final_nl else '')
